@@ -107,6 +107,8 @@ def make_body(name, script, rec):
                     _, n, kind = a
                     if rinfo is not None and rinfo.retry_number < n:
                         raise EXN[kind]("fail%d" % rinfo.retry_number)
+                elif op == "on_cancel_publish":
+                    pass
                 elif op == "raise_seq":
                     # raise the k-th exception object of the list on the execution with retry number k
                     if rinfo is not None and rinfo.retry_number < len(a[1]):
@@ -133,6 +135,11 @@ def make_body(name, script, rec):
             return None
         except asyncio.CancelledError:
             outcome = "cancelled"
+            for a in acts:
+                if a[0] == "on_cancel_publish":   # user code that publishes while being cancelled (e.g. in a finally block)
+                    e = a[1](i=next(rec.eid))
+                    rec.ev("publish", step=name, inv=inv, ev=a[1].__name__, i=e.i, on_cancel=True)
+                    ctx.write_event_to_stream(e)
             raise
         except BaseException as ex:  # noqa: BLE001
             outcome = "raise-" + type(ex).__name__
@@ -212,7 +219,7 @@ def next_timer(loop):
 
 
 async def drive(wf, rec, rng, externals=(), max_actions=400, start_event=None, ctx=None, policy="random",
-                hooks=None, horizon=5000.0):
+                hooks=None, horizon=5000.0, time_bias=0.15):
     """Run one workflow under a generated schedule.
     externals: list of callables(handler, rec) -> None, sent at scheduler-chosen moments.
     policy: "random" | "fifo" | "lifo" (which pending gate to open next)."""
@@ -242,7 +249,7 @@ async def drive(wf, rec, rng, externals=(), max_actions=400, start_event=None, c
             obs.stuck = True
             break
         # prefer gates / externals over time (time passes only when chosen or nothing else to do)
-        if "time" in choices and len(choices) > 1 and rng.random() < 0.85:
+        if "time" in choices and len(choices) > 1 and rng.random() < 1.0 - time_bias:
             choices.remove("time")
         c = rng.choice(choices)
         if c == "gate":
@@ -268,6 +275,10 @@ async def drive(wf, rec, rng, externals=(), max_actions=400, start_event=None, c
         obs.stuck = True
     await vloop.settle()
     obs.handler = handler
+    try:   # whatever is still in the publish queue was published after the stream's terminal event
+        obs.leftover = list(handler._external_adapter._queues.publish_queue._queue)
+    except Exception:  # noqa: BLE001
+        obs.leftover = None
     try:
         obs.ticks = list(handler.ctx._require_external("ticks")._tick_log) if not obs.stuck or True else None
     except Exception:  # noqa: BLE001
